@@ -16,6 +16,7 @@ import (
 	"strings"
 	"time"
 
+	"github.com/google/mtail/internal/logline"
 	"github.com/google/mtail/internal/metrics"
 	"github.com/google/mtail/internal/metrics/datum"
 	"github.com/google/mtail/internal/simrt"
@@ -115,8 +116,81 @@ func propC11(e *Env) {
 			matched++
 		}
 	}
+	// The feeder stamps every line with the scheduler step at which it started to hand it over and the
+	// step at which the line after the next had been accepted: both hops (harness -> runtime fan-out loop
+	// -> VM loop) are unbuffered and each loop takes a line only after finishing the previous one, so when
+	// line i+2 has been accepted the VM has taken line i+1 and therefore finished line i. Every line's
+	// effect lies inside [invoke, ret] (conservatively: ret may be later than the true completion).
+	const never = int(^uint(0) >> 1)
+	invoke := make([]int, len(lines))
+	ret := make([]int, len(lines))
+	isMatch := make([]bool, len(lines))
+	lineNoOf := make([]int, len(lines))
+	for i, l := range lines {
+		invoke[i], ret[i] = never, never
+		var a, c int
+		var b string
+		if n, _ := fmt.Sscanf(l, "%d %s %d", &a, &b, &c); n == 3 {
+			isMatch[i] = true
+			lineNoOf[i] = a
+		}
+	}
 	fedDone := false
-	r.feed("log", lines, &fedDone)
+	e.S.Go("feeder", func() {
+		for i, l := range lines {
+			invoke[i] = e.S.Steps
+			simrt.Send(r.lines, logline.New(context.Background(), "log", l))
+			if i > 1 {
+				ret[i-2] = e.S.Steps
+			}
+		}
+		fedDone = true
+	})
+	// window check of one exported sample read between steps ri and rr
+	windowCheck := func(name, series string, v float64, ri, rr int) string {
+		switch {
+		case strings.HasPrefix(series, "total{") || series == "total":
+			lo, hi := 0, 0
+			for j := range lines {
+				if !isMatch[j] {
+					continue
+				}
+				if ret[j] < ri {
+					lo++
+				}
+				if invoke[j] <= rr {
+					hi++
+				}
+			}
+			if int(v) < lo || int(v) > hi {
+				return fmt.Sprintf("%s read %s = %v between steps %d and %d, but %d increments had completed before the read began and only %d had begun when it ended", name, series, v, ri, rr, lo, hi)
+			}
+		case strings.HasPrefix(series, "lineno{") || series == "lineno":
+			ok := false
+			lastDone := -1
+			for j := range lines {
+				if !isMatch[j] {
+					continue
+				}
+				if ret[j] < ri {
+					lastDone = j
+				}
+				if invoke[j] <= rr && ret[j] >= ri && lineNoOf[j] == int(v) {
+					ok = true
+				}
+			}
+			if lastDone >= 0 && lineNoOf[lastDone] == int(v) {
+				ok = true
+			}
+			if lastDone < 0 && v == 0 {
+				ok = true
+			}
+			if !ok {
+				return fmt.Sprintf("%s read %s = %v between steps %d and %d: no line that was being processed in that window, nor the last one finished before it, wrote that value", name, series, v, ri, rr)
+			}
+		}
+		return ""
+	}
 	// exporter tasks
 	type sample struct {
 		series string
@@ -134,7 +208,9 @@ func propC11(e *Env) {
 			defer func() { exportsDone++ }()
 			last := map[string]float64{}
 			for i := 0; i < rounds; i++ {
+				ri := e.S.Steps
 				out, err := scrape()
+				rr := e.S.Steps
 				if err != nil {
 					problems = append(problems, fmt.Sprintf("%s export failed: %v", name, err))
 					return
@@ -148,6 +224,9 @@ func propC11(e *Env) {
 					v, perr := strconv.ParseFloat(m[3], 64)
 					if perr != nil || !monotone(series) {
 						continue
+					}
+					if msg := windowCheck(name, series, v, ri, rr); msg != "" {
+						problems = append(problems, msg)
 					}
 					if p, ok := last[series]; ok && v < p && !strings.HasPrefix(series, "bytag") {
 						problems = append(problems, fmt.Sprintf("%s: %s went from %v to %v between two successive exports", name, series, p, v))
